@@ -64,7 +64,7 @@ def run(report, db, tier):
     r3(report, db, cg, M, type_ci, packet_ci)
     R4 = report.rule('R15.4', 'cipher wrappers are single pass-through '
                      'updates: an empty read stays empty')
-    shared.wrapper_passthrough(report, R4, db)
+    shared.wrapper_passthrough_ps(report, R4, db)
     R5 = report.rule('R15.5', 'status-phase fallback: exactly EOFError, '
                      'close immediately, default version, handled')
     shared.eof_fallback_ps(report, R5, db, S)
